@@ -70,9 +70,76 @@ func genBig(r *rand.Rand, bits int) *big.Int {
 	return x
 }
 
+var rawKinds = []string{"int.addraw", "int.subraw", "int.mulraw", "int.quoraw", "int.modraw", "uint.adduint64", "uint.subuint64",
+	"uint.muluint64", "uint.quouint64", "dec.mulint64", "dec.quoint64"}
+
+// genMachine: a machine integer, biased to the ends of its range
+func genMachine(r *rand.Rand, unsigned bool) *big.Int {
+	if unsigned {
+		switch r.Intn(6) {
+		case 0:
+			return new(big.Int).SetUint64(^uint64(0) - uint64(r.Intn(2)))
+		case 1:
+			return big.NewInt(int64(r.Intn(3)))
+		case 2:
+			return new(big.Int).SetUint64(uint64(1) << uint(r.Intn(64)))
+		default:
+			return new(big.Int).SetUint64(r.Uint64())
+		}
+	}
+	switch r.Intn(8) {
+	case 0:
+		return big.NewInt(-9223372036854775808 + int64(r.Intn(2)))
+	case 1:
+		return big.NewInt(9223372036854775807 - int64(r.Intn(2)))
+	case 2:
+		return big.NewInt(int64(r.Intn(5) - 2))
+	case 3:
+		x := big.NewInt(int64(1) << uint(r.Intn(63)))
+		if r.Intn(2) == 0 {
+			x.Neg(x)
+		}
+		return x
+	default:
+		return big.NewInt(int64(r.Uint64()))
+	}
+}
+
 func (Fam) Gen(r *rand.Rand, i int) string {
 	if r.Intn(4) == 0 {
 		return genCoinsOp(r)
+	}
+	if r.Intn(6) == 0 {
+		k := rawKinds[r.Intn(len(rawKinds))]
+		bits := 255
+		switch {
+		case strings.HasPrefix(k, "uint."):
+			bits = 256
+		case strings.HasPrefix(k, "dec."):
+			bits = 315
+		}
+		a := genBig(r, bits)
+		if strings.HasPrefix(k, "uint.") {
+			a.Abs(a)
+		}
+		return fmt.Sprintf("%s %s %s", k, a, genMachine(r, strings.HasPrefix(k, "uint.")))
+	}
+	if r.Intn(25) == 0 {
+		k := []string{"int.cmp", "uint.cmp", "dec.cmp"}[r.Intn(3)]
+		bits := map[string]int{"int.cmp": 255, "uint.cmp": 256, "dec.cmp": 315}[k]
+		a := genBig(r, bits)
+		b := genBig(r, bits)
+		if r.Intn(3) == 0 {
+			b = new(big.Int).Add(a, big.NewInt(int64(r.Intn(3)-1)))
+			if !within(b, new(big.Int).Lsh(one, uint(bits))) {
+				b = new(big.Int).Set(a)
+			}
+		}
+		if k == "uint.cmp" {
+			a.Abs(a)
+			b.Abs(b)
+		}
+		return fmt.Sprintf("%s %s %s", k, a, b)
 	}
 	if r.Intn(4) == 0 {
 		k := kinds1[r.Intn(len(kinds1))]
@@ -449,11 +516,118 @@ func doubleRounding(k string, a, b *big.Int) bool {
 	return false
 }
 
+// rawOps: the variants taking a machine integer; they must behave exactly like the big-operand operation
+// applied to that integer (the generator keeps the second operand in the machine range).
+var rawOps = map[string]string{"int.addraw": "int.add", "int.subraw": "int.sub", "int.mulraw": "int.mul", "int.quoraw": "int.quo",
+	"int.modraw": "int.mod", "uint.adduint64": "uint.add", "uint.subuint64": "uint.sub", "uint.muluint64": "uint.mul",
+	"uint.quouint64": "uint.quo", "dec.mulint64": "dec.mulint", "dec.quoint64": "dec.quoint"}
+
+func implRaw(k string, a, b *big.Int) (res string, after []string) {
+	res = try(func() string {
+		switch k {
+		case "int.addraw", "int.subraw", "int.mulraw", "int.quoraw", "int.modraw":
+			x := mkInt(a)
+			defer func() { after = []string{x.String()} }()
+			y := b.Int64()
+			switch k {
+			case "int.addraw":
+				return "ok " + x.AddRaw(y).String()
+			case "int.subraw":
+				return "ok " + x.SubRaw(y).String()
+			case "int.mulraw":
+				return "ok " + x.MulRaw(y).String()
+			case "int.quoraw":
+				return "ok " + x.QuoRaw(y).String()
+			default:
+				return "ok " + x.ModRaw(y).String()
+			}
+		case "uint.adduint64", "uint.subuint64", "uint.muluint64", "uint.quouint64":
+			x := mkUint(a)
+			defer func() { after = []string{x.String()} }()
+			y := b.Uint64()
+			switch k {
+			case "uint.adduint64":
+				return "ok " + x.AddUint64(y).String()
+			case "uint.subuint64":
+				return "ok " + x.SubUint64(y).String()
+			case "uint.muluint64":
+				return "ok " + x.MulUint64(y).String()
+			default:
+				return "ok " + x.QuoUint64(y).String()
+			}
+		case "dec.mulint64":
+			x := mkDec(a)
+			defer func() { after = []string{x.Int.String()} }()
+			return "ok " + x.MulInt64(b.Int64()).Int.String()
+		case "dec.quoint64":
+			x := mkDec(a)
+			defer func() { after = []string{x.Int.String()} }()
+			return "ok " + x.QuoInt64(b.Int64()).Int.String()
+		}
+		return "bad-op"
+	})
+	return
+}
+
+func cmpStr(gt, gte, lt, lte, eq bool) string {
+	b := func(x bool) int {
+		if x {
+			return 1
+		}
+		return 0
+	}
+	return fmt.Sprintf("ok gt=%d gte=%d lt=%d lte=%d eq=%d", b(gt), b(gte), b(lt), b(lte), b(eq))
+}
+
+func execCmp(op string) (string, []common.Failure) {
+	f := strings.Fields(op)
+	a, b := parse(f[1]), parse(f[2])
+	obs := try(func() string {
+		switch f[0] {
+		case "int.cmp":
+			x, y := mkInt(a), mkInt(b)
+			return cmpStr(x.GT(y), x.GTE(y), x.LT(y), x.LTE(y), x.Equal(y))
+		case "uint.cmp":
+			x, y := mkUint(a), mkUint(b)
+			return cmpStr(x.GT(y), x.GTE(y), x.LT(y), x.LTE(y), x.Equal(y))
+		default:
+			x, y := mkDec(a), mkDec(b)
+			return cmpStr(x.GT(y), x.GTE(y), x.LT(y), x.LTE(y), x.Equal(y))
+		}
+	})
+	c := a.Cmp(b)
+	want := cmpStr(c > 0, c >= 0, c < 0, c <= 0, c == 0)
+	var fails []common.Failure
+	if obs != want {
+		fails = append(fails, common.Failure{Clause: "exact-arithmetic", Signature: "C18:" + f[0] + ":result",
+			Detail: fmt.Sprintf("%s: implementation %q, exact comparison %q", op, obs, want)})
+	}
+	return obs, fails
+}
+
 func (Fam) Exec(op string) (string, []common.Failure) {
 	f := strings.Fields(op)
 	k := f[0]
 	if strings.HasPrefix(k, "coins.") {
 		return execCoins(op)
+	}
+	if strings.HasSuffix(k, ".cmp") {
+		return execCmp(op)
+	}
+	if base, ok := rawOps[k]; ok {
+		a, b := parse(f[1]), parse(f[2])
+		a0 := a.String()
+		obs, after := implRaw(k, a, b)
+		var fails []common.Failure
+		if want := spec(base, a, b); want != "" && want != obs {
+			fails = append(fails, common.Failure{Clause: "exact-arithmetic", Signature: "C18:" + k + ":result",
+				Detail: fmt.Sprintf("%s: implementation %q, exact arithmetic %q", op, obs, want)})
+		}
+		if len(after) > 0 && after[0] != a0 {
+			fails = append(fails, common.Failure{Clause: "operand-mutated", Signature: "C18:" + k + ":mutated",
+				Detail: fmt.Sprintf("%s: receiver after the call %v", op, after)})
+		}
+		return obs, fails
 	}
 	a := parse(f[1])
 	b := new(big.Int)
